@@ -3,13 +3,20 @@
 Kept in its own module because `Gen/C03.lean` imports it. -/
 namespace Tunnox.C03
 
+/-- what `ClientConfig.SecretKeyEncrypted` / the deprecated `SecretKey` field hold:
+`usable` = a ciphertext that decrypts under the server's master key; `undec` = a non-empty ciphertext that does not
+(sealed under another master key, corrupted); `empty` = no ciphertext; `legacy` = no ciphertext, only the deprecated
+plaintext field (client never migrated). `Decrypt` succeeds only for `usable`. -/
+inductive SecState | usable | undec | empty | legacy
+deriving DecidableEq, Repr, Inhabited
+
 /-- `models.ClientConfig` as far as the handshake reads it.  `ExpiresAt` is the Go
 `*time.Time` (ns); `deleted` = the config is gone from storage (`GetClientConfig`
-fails); `hasKey` = `SecretKeyEncrypted != ""` and decryptable. -/
+fails); `secret` = what is stored for the client's secret key (see `SecState`). -/
 structure ClientConfigT where
   ExpiresAt : Option Nat := none
   deleted : Bool := false
-  hasKey : Bool := true
+  secret : SecState := .usable
 deriving DecidableEq, Repr, Inhabited
 
 end Tunnox.C03
